@@ -185,7 +185,7 @@ pub fn judge_real(
     // ---- exit status / diagnostics (C05, C12)
     let failed_planned: Vec<&String> = inv.faults.keys().filter(|s| started_set.contains(*s)).collect();
     let exit = out.exit;
-    if matches!(prop, "C05" | "C16") {
+    if matches!(prop, "C05" | "C16" | "C01") {
         if !failed_planned.is_empty() && exit == Some(0) {
             rep.violation("success-with-failed-command", &format!("exit 0 although {:?} failed", failed_planned), mk());
         }
@@ -371,6 +371,9 @@ fn general_case(ctx: &Ctx, env: &RealEnv, dir: &std::path::Path, case: u64, seed
                 inv.faults.insert(s.clone(), *rng.pick(&[FailMode::Nothing, FailMode::All, FailMode::Some]));
                 if rng.chance(1, 2) {
                     inv.exit_codes.insert(s, rng.range(1, 255) as i32);
+                } else if rng.chance(1, 2) {
+                    // the shell itself is killed (what n2 sees as a terminating signal)
+                    inv.signals.insert(s, (*rng.pick(&[libc::SIGTERM, libc::SIGKILL, libc::SIGSEGV, libc::SIGHUP]), true));
                 }
             }
             if prop == "C05" && rng.chance(1, 6) {
